@@ -6,6 +6,9 @@ use crate::interpreter::Interpreter;
 use crate::prelude::{FxHashSet, String, ToString, Vec, format, math};
 use crate::value::{ExoticObject, Guarded, JsObject, JsString, JsValue, PropertyKey};
 
+/// Deepest object/array nesting `JSON.stringify` / `js_value_to_json` will follow.
+const MAX_JSON_NESTING: usize = 500;
+
 const MS_PER_SECOND: i64 = 1000;
 const MS_PER_MINUTE: i64 = 60 * MS_PER_SECOND;
 const MS_PER_HOUR: i64 = 60 * MS_PER_MINUTE;
@@ -201,6 +204,14 @@ fn js_value_to_json_with_visited(
             if visited.contains(&obj_id) {
                 return Err(JsError::type_error(
                     "Converting circular structure to JSON".to_string(),
+                ));
+            }
+            // `visited` holds exactly the objects on the current path, i.e. the nesting
+            // depth; the conversion recurses natively, so bound it (serde_json refuses
+            // nesting beyond 128 on the way in for the same reason).
+            if visited.len() >= MAX_JSON_NESTING {
+                return Err(JsError::range_error(
+                    "Converting too deeply nested structure to JSON",
                 ));
             }
             visited.insert(obj_id);
